@@ -337,13 +337,13 @@ func (x *Exec) binop(fr *Frame, in *ssa.BinOp, st *State) Value {
 			x.assume(ts.Eq(x.w.strLen(r), x.bvOp("bvadd", x.w.strLen(a), x.w.strLen(b))))
 			return r
 		case token.LSS:
-			return x.w.Fun("str_lt", SBool, a, b)
+			return x.strLt(a, b)
 		case token.GTR:
-			return x.w.Fun("str_lt", SBool, b, a)
+			return x.strLt(b, a)
 		case token.LEQ:
-			return ts.Not(x.w.Fun("str_lt", SBool, b, a))
+			return ts.Not(x.strLt(b, a))
 		case token.GEQ:
-			return ts.Not(x.w.Fun("str_lt", SBool, a, b))
+			return ts.Not(x.strLt(a, b))
 		}
 	case a.sort == SF64 || a.sort == SF32:
 		rne := ts.Leaf("RNE", SRM)
